@@ -479,3 +479,62 @@ Theorem history_cut :
   (forall a b (o : wc_obj), wc_run o (a ++ b) = then_run wc_run (wc_run o a) b) /\
   (forall a b (o : ws_obj), ws_run o (a ++ b) = then_run ws_run (ws_run o a) b).
 Proof. repeat split; intros; apply run_app. Qed.
+
+(* ================================================================ wrath client, header level == *)
+Lemma wch_run_view_holds ops (o : wc_obj) :
+  match wch_run o ops with
+  | Ok (o', oe, od) =>
+    run_calls W.ce_encrypt (fst (wc_view o)) (encs ops) = Ok (fst (wc_view o'), oe) /\
+    run_calls cd_receive (snd (wc_view o)) (decs ops) = Ok (snd (wc_view o'), od)
+  | Panic => run_calls W.ce_encrypt (fst (wc_view o)) (encs ops) = Panic \/
+             run_calls cd_receive (snd (wc_view o)) (decs ops) = Panic
+  | Err _ => False
+  end.
+Proof.
+  pose proof (run_view W.cc_encrypt cc_receive W.ce_encrypt cd_receive W.cc_split None wc_mk (fun _ _ => True)) as H.
+  specialize (H ltac:(reflexivity) ltac:(reflexivity) ltac:(reflexivity)).
+  specialize (H ltac:(intros; discriminate) ltac:(auto) ltac:(auto) ops o I).
+  fold wch_run wc_view in H. destruct (wch_run o ops) as [[[o' oe] od]|u|]; [tauto|exact H|exact H].
+Qed.
+
+Theorem wch_clone_and_cut :
+  (forall ops (o : wc_obj), wch_run o ops = wch_run o (filter (fun x => negb (is_clone x)) ops)) /\
+  (forall a b (o : wc_obj), wch_run o (a ++ b) = then_run wch_run (wch_run o a) b).
+Proof. split; intros; [apply run_clone | apply run_app]. Qed.
+
+(* a pending long header survives whatever happens between its two steps: the attempt, then any
+   operations that are not receive calls (sends, split, clone), then the fifth byte give the same
+   header and the same decrypter as the two steps back to back *)
+Theorem pending_header_survives : forall (o : wc_obj) buf byte mid,
+  decs mid = [] ->
+  match wch_run o (Dec buf :: mid ++ [Dec [byte]]) with
+  | Ok (o', _, od) =>
+    exists d1 out1 d2 out2,
+      cd_receive (snd (wc_view o)) buf = Ok (d1, out1) /\ cd_receive d1 [byte] = Ok (d2, out2) /\
+      snd (wc_view o') = d2 /\ od = out1 ++ out2
+  | Panic =>
+    run_calls W.ce_encrypt (fst (wc_view o)) (encs mid) = Panic \/
+    cd_receive (snd (wc_view o)) buf = Panic \/
+    (exists d1 out1, cd_receive (snd (wc_view o)) buf = Ok (d1, out1) /\ cd_receive d1 [byte] = Panic)
+  | Err _ => False
+  end.
+Proof.
+  intros o buf byte mid Hmid.
+  pose proof (wch_run_view_holds (Dec buf :: mid ++ [Dec [byte]]) o) as H.
+  assert (Hd : decs (Dec buf :: mid ++ [Dec [byte]]) = [buf; [byte]]).
+  { cbn [decs]. f_equal. clear -Hmid. induction mid as [|x r IH]; [reflexivity|].
+    destruct x; cbn [decs app] in *; try discriminate; auto. }
+  assert (He : encs (Dec buf :: mid ++ [Dec [byte]]) = encs mid).
+  { cbn [encs]. clear. induction mid as [|x r IH]; [reflexivity|]. destruct x; cbn [encs app]; congruence. }
+  rewrite Hd, He in H. cbn [run_calls] in H.
+  destruct (wch_run o (Dec buf :: mid ++ [Dec [byte]])) as [[[o' oe] od]|u|]; [| exact H |].
+  - destruct H as [_ H].
+    destruct (cd_receive (snd (wc_view o)) buf) as [[d1 out1]|e|] eqn:E1; [|destruct e|discriminate].
+    destruct (cd_receive d1 [byte]) as [[d2 out2]|e|] eqn:E2; [|destruct e|discriminate].
+    injection H as <- <-. exists d1, out1, d2, out2. rewrite app_nil_r. auto.
+  - destruct H as [H|H]; [left; exact H|right].
+    destruct (cd_receive (snd (wc_view o)) buf) as [[d1 out1]|e|] eqn:E1; [|destruct e|left; reflexivity].
+    right. exists d1, out1. split; [reflexivity|].
+    destruct (cd_receive d1 [byte]) as [[d2 out2]|e|] eqn:E2; [discriminate|destruct e|reflexivity].
+Qed.
+
